@@ -329,6 +329,19 @@ Definition p_pcall : parser (rowk * ctor) :=
   k <- p_next ;; c <- p_ctor ;;
   if k =? 0 then p_ret (RowOk, c) else if k =? 1 then p_ret (RowMissingField, c) else if k =? 2 then p_ret (RowWrongType, c) else p_fail.
 
+(* kind 3: the shape is written through the bare ShapeWriter BEFORE it is wrapped into the complete writer
+   (`Writer::new(shape_writer, table_writer)` accepts a writer that was already used); only as a prefix *)
+Definition p_pcall_b : parser (bool * (rowk * ctor)) :=
+  k <- p_next ;; c <- p_ctor ;;
+  if k =? 0 then p_ret (false, (RowOk, c)) else if k =? 1 then p_ret (false, (RowMissingField, c))
+  else if k =? 2 then p_ret (false, (RowWrongType, c)) else if k =? 3 then p_ret (true, (RowOk, c)) else p_fail.
+
+Fixpoint bare_prefix (l : list (bool * (rowk * ctor))) : list ctor * list (rowk * ctor) :=
+  match l with
+  | (true, (_, c)) :: r => let '(a, b) := bare_prefix r in (c :: a, b)
+  | _ => ([], map snd l)
+  end.
+
 Fixpoint number_calls (i : Z) (l : list (rowk * ctor)) : option (list (shape * rowk * Z)) :=
   match l with
   | [] => Some []
@@ -375,11 +388,15 @@ Definition r_cout_for (bulk : bool) (o : cout) : list Z :=
   end.
 
 Definition case_pair (l : list Z) : list Z :=
-  match p_list p_pcall l with
-  | Some (pcs, rest) =>
-      match number_calls 0 pcs, p_list p_cop rest with
-      | Some calls, Some (ops, []) =>
-          let '(rs, st, w) := cw_calls calls cw_new world0 in
+  match p_list p_pcall_b l with
+  | Some (pcs0, rest) =>
+      let '(pre, pcs) := bare_prefix pcs0 in
+      if existsb fst (skipn (length pre) pcs0) then [-1] else
+      match build_all pre, number_calls (zlen pre) pcs, p_list p_cop rest with
+      | Some pre_shapes, Some calls, Some (ops, []) =>
+          let '(rs0, st0, w0) := run_calls (map CWrite pre_shapes) (w_new true) world0 in
+          let '(rs1, st, w) := cw_calls calls (mkcw st0 []) w0 in
+          let rs := rs0 ++ rs1 in
           let w' := w_drop (cw_shape st) w in
           let shp := d_buf (w_shp w') in let shx := d_buf (w_shx w') in
           let rows := cw_rows st in
@@ -394,8 +411,8 @@ Definition case_pair (l : list Z) : list Z :=
                        Ret (flat_map (fun x => r_cout_for (fst (fst x)) (snd x)) (combine ops out)) in
               r_res (fun x => x) (fst (run p (src_of shp)))
           end
-      | None, _ => [-3]
-      | _, _ => [-1]
+      | None, _, _ | _, None, _ => [-3]
+      | _, _, _ => [-1]
       end
   | None => [-1]
   end.
@@ -642,6 +659,27 @@ Definition case_path (l : list Z) : list Z :=
   | [] => [-1]
   end.
 
+(** ** The complete reader on given files (kind 17)
+    [17; shp bytes; has_shx; shx bytes (if has_shx); nrows; nops; ops as in kind 9]: a table of nrows rows with ids
+    0..nrows-1 beside the given .shp (and .shx). *)
+Definition K_PAIR_FILE : Z := 17.
+Definition case_pair_file (l : list Z) : list Z :=
+  match p_bytes l with
+  | Some (shp, has_shx :: rest) =>
+      let after_shx := if has_shx =? 1 then p_bytes rest else Some ([], rest) in
+      match after_shx with
+      | Some (shx, nrows :: rest2) =>
+          match p_list p_cop rest2 with
+          | Some (ops, []) =>
+              if nrows <? 0 then [-1] else
+              pair_part shp (if has_shx =? 1 then Some shx else None) (map Z.of_nat (seq 0 (Z.to_nat nrows))) ops
+          | _ => [-1]
+          end
+      | _ => [-1]
+      end
+  | _ => [-1]
+  end.
+
 Definition run_case2 (l : list Z) : list Z :=
   match l with
   | k :: r =>
@@ -652,6 +690,7 @@ Definition run_case2 (l : list Z) : list Z :=
       else if k =? K_PAIR then case_pair r
       else if k =? K_COPY then case_copy r
       else if k =? K_PATH then case_path r
+      else if k =? K_PAIR_FILE then case_pair_file r
       else if k =? K_GEO_TO then case_geo_to r
       else if k =? K_GEO_FROM then case_geo_from r
       else if k =? K_GEO_FILE then case_geo_file r
